@@ -57,6 +57,7 @@ type FuncSpec struct {
 	Assumed  bool
 	Conc     bool
 	IsIface  bool
+	Stable   bool // pure and independent of the heap (function of receiver and arguments only)
 	IsCallback bool
 	NoInline bool
 	Unroll   bool
@@ -76,6 +77,7 @@ type GhostVar struct {
 }
 
 type SpecFunc struct {
+	Rec    bool
 	Name   string
 	Params []string
 	Sorts  []string
@@ -123,7 +125,7 @@ func newSpecDB0() *SpecDB {
 }
 
 var clauseKw = map[string]bool{"requires": true, "ensures": true, "modifies": true, "panics": true, "props": true,
-	"loop": true, "invariant": true, "pure": true, "assumed": true, "concurrent": true, "noinline": true, "unroll": true, "let": true, "decreases": true, "witness": true, "replay": true, "case": true}
+	"loop": true, "invariant": true, "pure": true, "stable": true, "assumed": true, "concurrent": true, "noinline": true, "unroll": true, "let": true, "decreases": true, "witness": true, "replay": true, "case": true}
 var topKw = map[string]bool{"func": true, "iface": true, "callback": true, "ghost": true, "spec": true, "lemma": true}
 
 func firstWord(s string) (string, string) {
@@ -269,6 +271,9 @@ func (db *SpecDB) loadFile(path, pkgPath string) error {
 				}
 			case "pure":
 				cur.Pure = true
+			case "stable":
+				cur.Pure = true
+				cur.Stable = true
 			case "assumed":
 				cur.Assumed = true
 			case "concurrent":
@@ -443,25 +448,47 @@ func parseHeader(s, pkgPath string, iface bool) (*FuncSpec, error) {
 
 // parseSpecFunc: "func name(a Int, b Real) Bool = expr"
 func parseSpecFunc(s, pkgPath string) (*SpecFunc, error) {
+	rec := false
+	if strings.HasPrefix(s, "rec ") {
+		rec = true
+		s = "func " + strings.TrimSpace(s[4:])
+	}
 	if !strings.HasPrefix(s, "func ") {
 		return nil, fmt.Errorf("spec func expected")
 	}
 	s = strings.TrimSpace(s[5:])
 	j := strings.Index(s, "(")
-	k := strings.Index(s, ")")
-	eq := strings.Index(s, "=")
+	k := -1
+	depth := 0
+	for i := j; i >= 0 && i < len(s); i++ {
+		if s[i] == '(' {
+			depth++
+		} else if s[i] == ')' {
+			depth--
+			if depth == 0 {
+				k = i
+				break
+			}
+		}
+	}
+	eq := -1
+	if k >= 0 {
+		if e := strings.Index(s[k:], "="); e >= 0 {
+			eq = k + e
+		}
+	}
 	if j < 0 || k < 0 || eq < k {
 		return nil, fmt.Errorf("bad spec func")
 	}
-	sf := &SpecFunc{Name: strings.TrimSpace(s[:j]), Pkg: pkgPath}
-	for _, p := range strings.Split(s[j+1:k], ",") {
+	sf := &SpecFunc{Name: strings.TrimSpace(s[:j]), Pkg: pkgPath, Rec: rec}
+	for _, p := range splitTop(s[j+1:k]) {
 		f := strings.Fields(p)
 		if len(f) == 0 {
 			continue
 		}
 		sf.Params = append(sf.Params, f[0])
 		if len(f) > 1 {
-			sf.Sorts = append(sf.Sorts, f[1])
+			sf.Sorts = append(sf.Sorts, strings.Join(f[1:], " "))
 		} else {
 			sf.Sorts = append(sf.Sorts, "")
 		}
